@@ -235,6 +235,21 @@ def run_one(seed, preset=None, tier="quick", want_case=False):
 
         cf = Conform(case.schema, rx)
 
+        def slot_is_null(path):
+            """The value the engine actually reads at a default-resolved / item position is None (after all corruptions)."""
+            try:
+                if path in plan.default_sites:
+                    o_, fd_ = plan.default_sites[path]
+                    if isinstance(o_, dict) and not (fd_.impl == "attr" and fd_.name in getattr(o_, "__dict__", {})):
+                        return o_.get(fd_.name) is None
+                    return (o_.__dict__.get(fd_.name) if fd_.impl == "attr" else o_._keys.get(fd_.name)) is None
+                if path in plan.item_sites:
+                    l_, i_ = plan.item_sites[path]
+                    return isinstance(l_, list) and i_ < len(l_) and l_[i_] is None
+            except Exception:  # noqa: BLE001
+                return False
+            return False
+
         def walk(actual, expected, path):
             nonlocal reached
             if path in tainted:
@@ -244,8 +259,9 @@ def run_one(seed, preset=None, tier="quick", want_case=False):
                 if not cf.value(actual, ty if not is_nn(ty) else ty, nodes, path) and not (actual is None):
                     viol.append(V("nonconforming_data", "corrupted position %r (declared %s, resolver supplied %r): %s" % (
                         list(path), ty, val, cf.why), kind="value"))
-                elif actual is None and expected is None and isinstance(val, str) and val.startswith("<type resolver answered"):
-                    pass  # the value is null anyway: the type resolver is not consulted
+                elif actual is None and isinstance(val, str) and val.startswith("<type resolver answered") and (
+                        expected is None or slot_is_null(path)):
+                    pass  # the value is null anyway (also: nulled through another alias of the same slot): the type resolver is not consulted
                 elif actual is None and val is not None and not explained(path):
                     viol.append(V("unexplained_null", "position %r is null, the resolver supplied %r, and no error has a path at or "
                                   "below it" % (list(path), val)))
